@@ -48,7 +48,9 @@
 //
 // Paths [Path functions]: p = (a)-[...]->(b) binds a PathVal with nodes and relationships in traversal
 // order; nodes(p), relationships(p), length(p). length() is defined on paths only (size() is for
-// lists and strings); DAWGS documents nothing else for paths.
+// lists and strings); DAWGS documents nothing else for paths. A pattern part that the DAWGS optimiser marked
+// PathDirectionReversed (it reversed the part's elements and directions; only rewritten models carry the flag)
+// binds its path in the ORIGINAL order, i.e. reversed with respect to the traversal, as the model field documents.
 //
 // OPTIONAL MATCH: outer extension. The WHERE belongs to the optional match; a row without a match is
 // kept once with all newly introduced variables null. A leading OPTIONAL MATCH without a match
